@@ -102,9 +102,17 @@ def requests(cfg, rng, n, tier, part, nparts, st):
             st['exhaustive'].append('%s: all %d format specs x all widths 0..=255 x 3 values' % (cfg.name, ns))
     for k in range(n):
         r = rng.random()
-        if r < 0.06 and cfg.n >= 2:
+        if r < 0.05 and cfg.n >= 2:
             from props.c11 import chunk_multiple
             v = cfg.val(chunk_multiple(cfg, rng, 10))
+        elif r < 0.10:
+            from props.c11 import chunk_digit_value
+            v = cfg.val(chunk_digit_value(cfg, rng, 10))
+        elif r < 0.16:
+            from props.c11 import sparse_in_radix
+            v = cfg.val(sparse_in_radix(cfg, rng, 10))
+            if cfg.signed and rng.random() < 0.3:
+                v = cfg.wrap(-v)
         elif r < 0.4:
             v = interior_value(cfg, rng)
         elif r < 0.5:
